@@ -59,6 +59,13 @@ claim("C17", "other",
       "DESIGN.md §3 C17")
 
 
+claim("C18", "other",
+      "taint (must-pass-through-escaper) rule over every Jsonify impl reachable from a response and over hand-built bodies; route -> workspace-operation must-reach table over the HIR call graph; lock-result handling lint",
+      "Static rule checking: (1) in Value/Values/FeelContext::jsonify and in the evaluate handler, every piece of text that reaches the JSON output is a constant, a scalar, a jsonify() result or the result of a structurally recognised JSON string escaper (for the kinds the property lists: string, number, boolean, null, list, context and context keys); (2) each of the seven definitions/evaluate routes reaches exactly the Workspace operation it stands for; (3) all other bodies come from serde (Json<..>, ResultDto::to_string); (4) RwLock results are matched, never unwrapped. Decides the injection/escaping and endpoint-mapping clauses; TCK DTO round-trips and request-sequence equivalence are not decided.",
+      "Trusts rustc's HIR, serde_json/actix for the bodies they build, and the structural escaper recogniser in props/c18.py (a function matching '\"' and '\\' and control characters to escape sequences). FeelNumber::jsonify is audited as numeric text (C07's domain). The no-panic-under-write-lock clause is decided under C12.",
+      "DESIGN.md §3 C18")
+
+
 def main():
     checks = []
     for pid in sorted(CLAIMED):
